@@ -14,6 +14,7 @@ and `finish` called directly after `take` never panics (`C16_no_panic`).
 used by the separator to `Spec.ofFork`.
 -/
 import EtkVerif.Blocks.Lemmas
+import EtkVerif.Disasm.Lemmas
 import EtkVerif.Ops.TableCancun
 namespace EtkVerif.C16
 open Ops Blocks
@@ -58,6 +59,25 @@ theorem C16_no_panic (t : OpTable) (h : List Ev) (hf : FinishAfterTake h) :
     (run t h).panicked = false :=
   run_no_panic t h hf
 
+/-- The two stages composed, at the level of BYTES: when the separator has been fed
+exactly what the streaming disassembler emitted (any write chunking and poll
+interleaving on the disassembler side, any push / push_all / take / finish schedule on
+the separator side), the bytes of the blocks, in order, followed by the
+disassembler's undecoded tail, are exactly the bytes written — the blocks partition
+the input bytes, not merely the instruction list. -/
+theorem C16_bytes_partition (t : OpTable) (hs : Disasm.SizeOK t)
+    (hd : List Disasm.Ev) (hbytes : Disasm.BytesOK hd) (hb : List Ev)
+    (hfed : (run t hb).fed = (Disasm.run t hd).emitted) :
+    (run t hb).allBlocks.flatMap (fun b => b.ops.flatMap Disasm.Instr.bytes) ++ (Disasm.run t hd).dis.buffer
+      = (Disasm.run t hd).written := by
+  have hc := C16_concat t hb
+  have hl := (Disasm.run_invariant t hs hd hbytes).2.1
+  have e : (run t hb).allBlocks.flatMap (fun b => b.ops.flatMap Disasm.Instr.bytes)
+      = Disasm.bytesOf (Disasm.run t hd).emitted := by
+    rw [← List.flatMap_assoc, hc, hfed]
+    simp [Disasm.bytesOf, List.flatMap_map]
+  rw [e]; exact hl
+
 /-- The flags the separator reads from the regenerated Cancun table are the
 specification's: jump-target ⇔ jumpdest; block-ending ⇔ jump, jumpi or halting
 (stop, return, revert, invalid, selfdestruct, every byte etk does not define). -/
@@ -79,5 +99,10 @@ theorem C16_flags_cancun : ∀ b < 256, ∀ imm,
 -- non-vacuity: jumpdest splits, stop ends, selfdestruct ends (D17 regression witness)
 example : ((run Gen.cancun [.pushAll [(0, ⟨0x5b, []⟩), (1, ⟨0x60, [1]⟩), (3, ⟨0x5b, []⟩), (4, ⟨0xff, []⟩), (5, ⟨0x58, []⟩)], .take]).out.map (·.offset))
     = [0, 3] := by decide
+
+-- non-vacuity of `C16_bytes_partition`: a push1 split across two writes on the disassembler side, what it emitted fed
+-- to the separator one instruction at a time with a `take` in between; the hypothesis holds and the tail is `[0x61, 0x02]`
+example : (run Gen.cancun [.push (0, ⟨0x60, [0x01]⟩), .take, .push (2, ⟨0x5b, []⟩)]).fed
+    = (Disasm.run Gen.cancun [.write [0x60], .poll, .write [0x01, 0x5b, 0x61, 0x02], .poll, .poll, .poll]).emitted := by decide
 
 end EtkVerif.C16
